@@ -6,15 +6,15 @@
             Lower/OwnCheck.v  static ownership discipline on the actions (extracted)
             Lower/RtFns.v  runtime / generated list functions as actions
    FULL      C05_balancedb_correct, C05_balanced_released_once, C05_actions_balanced_on_every_exit,
-             C05_runtime_fns_balanced
+             C05_runtime_fns_balanced, C05_concat_callers_balanced, C05_former_witnesses_balanced,
+             C05_program_balanced_bounded (bound = the enumerated family of 19866 skeletons)
    PARTIAL   C05_program_balanced_partial (all skeleton programs whose compiled actions pass the static
-             discipline — decidable, evaluated on every generated program by the check)
-   REFUTED   C05_program_balanced_refuted (the discipline of the pinned compiler is not balanced on all
-             programs: loop conditions / bounds / headers with temporaries),
-             C05_scalar_scalar_concat_refuted, C05_nul_text_concat_refuted *)
+             discipline — decidable, evaluated on every generated program by the check); the unbounded
+             compile-level lemma (cexpr_ok / cstmt_ok, stated in Lower/CompileOk.v) is not proved
+   OLD CODE  C05_old_concat_functions_refuted documents the repaired defects on definitions named *_old *)
 From Coq Require Import List NArith Bool.
 Import ListNotations.
-From DDP Require Import Rt.Heap Rt.HeapProofs Lower.Own Lower.OwnCheck Lower.OwnProofs Lower.RtFns.
+From DDP Require Import Rt.Heap Rt.HeapProofs Lower.Own Lower.OwnCheck Lower.OwnProofs Lower.RtFns Lower.CompileBounded.
 Local Open Scope nat_scope.
 
 (* ---- the judge of the real ledgers ---------------------------------------------------------- *)
@@ -76,18 +76,35 @@ Theorem C05_program_balanced_partial :
 Proof. exact program_ok_balanced. Qed.
 Print Assumptions C05_program_balanced_partial.
 
-(* REFUTED: `forall P, terminates normally -> balanced` is false for the discipline of the pinned tree *)
-Theorem C05_program_balanced_refuted :
-  (exists L, run_program 5 [true; true; false] wit_while_cond = Some L /\ ~ balanced L) /\
-  (exists L, run_program 5 [] wit_for_bound = Some L /\ ~ balanced L) /\
-  (exists L, run_program 5 [] wit_continue_header = Some L /\ ~ balanced L) /\
-  (exists L, run_program 5 [] wit_continue_foreach = Some L /\ ~ balanced L) /\
-  (exists L, run_program 5 [true] wit_return_in_while = Some L /\ ~ balanced L).
-Proof. exact program_balanced_refuted. Qed.
-Print Assumptions C05_program_balanced_refuted.
+(* FULL for an explicitly bounded family (the bound is the enumeration `family`, 19866 skeleton programs: 11 non-primitive
+   expressions x 4 conditions x the ownership roles x every loop form x every exit from an inner scope — fallthrough,
+   break, continue, return of a temporary / of a local —, in main and inside an inlined function; see CompileBounded.v):
+   the code Own.compile emits for each of them passes the discipline, so every normally terminating run, for every
+   oracle (control-flow path) and fuel, has a balanced ledger *)
+Theorem C05_program_balanced_bounded :
+  forall P, In P family ->
+    program_ok P = true /\ forall fuel oracle L, run_program fuel oracle P = Some L -> balanced L.
+Proof. exact (fun P H => conj (family_ok P H) (family_balanced P H)). Qed.
+Print Assumptions C05_program_balanced_bounded.
+
+Example C05_family_size : N.of_nat (length family) = 19866%N.
+Proof. exact family_size. Qed.
+
+(* the programs that were unbalanced under the originally pinned code generator (self-assignment; Solange condition,
+   `bis` bound and loop header with temporaries; continue; return out of such a loop) are accepted — hence balanced on
+   every path — under the repaired generator (6711de1 2f9971e bf84b8a 597753d) *)
+Theorem C05_former_witnesses_balanced :
+  forall P, In P [wit_self_assign; wit_while_cond; wit_for_bound; wit_continue_header; wit_continue_foreach; wit_return_in_while] ->
+  forall fuel oracle L, run_program fuel oracle P = Some L -> balanced L.
+Proof.
+  intros P HP fuel oracle L. apply program_ok_balanced.
+  pose proof former_witnesses_accepted as H. cbn [map] in H.
+  repeat (destruct HP as [HP|HP]; [subst P; congruence|]). destruct HP.
+Qed.
+Print Assumptions C05_former_witnesses_balanced.
 
 (* ---- runtime and generated functions ----------------------------------------------------------- *)
-(* each function transfers ownership as documented, for all argument values *)
+(* each function transfers ownership as documented, for all argument values (state of /repo after c2054d3, 39a39c6) *)
 Theorem C05_runtime_fns_balanced :
   triple (own [1]) fn_free (own []) /\
   triple (own [1]) fn_deep_copy (own [0; 1]) /\
@@ -97,26 +114,28 @@ Theorem C05_runtime_fns_balanced :
   (forall n, triple (own [1; 2]) (fn_list_scalar_concat n) (mkO [0; 2] [1])) /\
   (forall n, triple (own [1; 2]) (fn_scalar_list_concat n) (mkO [0; 1] [2])) /\
   (forall n, triple (own []) (fn_scalar_scalar_concat_prim n) (own [0])) /\
-  (forall n, triple (own [1; 2]) (fn_scalar_scalar_concat_fixed n) (own [0; 1; 2])).
+  (forall n, triple (own [1; 2]) (fn_scalar_scalar_concat n) (own [0; 1; 2])) /\
+  triple (own [1; 2]) fn_string_string_concat_nul_left (own [0; 1; 2]).
 Proof. exact runtime_fns_balanced. Qed.
 Print Assumptions C05_runtime_fns_balanced.
 
-(* REFUTED: scalar (+) scalar concatenation of non-primitive elements as generated (both copies into
-   slot 0): rejected by the discipline, and a caller that frees result and operands is left with an
-   unbalanced ledger although it terminates normally; with the second copy in slot 1 it is balanced *)
-Theorem C05_scalar_scalar_concat_refuted :
-  own_check ctx0 (fn_scalar_scalar_concat 128%N) (own [1; 2]) = None /\
-  fst (run 0 (caller_of (fn_scalar_scalar_concat 128%N) 5%N 5%N) (init_rstate [])) = ONormal /\
-  ~ balanced (ledger_of (caller_of (fn_scalar_scalar_concat 128%N) 5%N 5%N)) /\
-  balanced (ledger_of (caller_of (fn_scalar_scalar_concat_fixed 128%N) 5%N 5%N)).
-Proof. exact scalar_scalar_concat_refuted. Qed.
-Print Assumptions C05_scalar_scalar_concat_refuted.
+(* a caller that frees the result and both operands of a concatenation ends with a balanced ledger (scalar (+) scalar of
+   non-primitive elements; Text whose claimed operand is empty for the runtime but owns a buffer) *)
+Theorem C05_concat_callers_balanced :
+  balanced (ledger_of (caller_of (fn_scalar_scalar_concat 128%N) 5%N 5%N)) /\
+  balanced (ledger_of (caller_of fn_string_string_concat_nul_left 2%N 4%N)) /\
+  balanced (ledger_of (caller_of fn_string_string_concat 2%N 4%N)) /\
+  own_check ctx0 (caller_of (fn_scalar_scalar_concat 128%N) 5%N 5%N) (own []) = Some (Some (own [])) /\
+  own_check ctx0 (caller_of fn_string_string_concat_nul_left 2%N 4%N) (own []) = Some (Some (own [])).
+Proof. exact concat_callers_balanced. Qed.
+Print Assumptions C05_concat_callers_balanced.
 
-(* REFUTED: Text concatenation whose claimed operand is empty for the runtime but owns a buffer *)
-Theorem C05_nul_text_concat_refuted :
-  own_check ctx0 (caller_of fn_string_string_concat_nul_left 2%N 4%N) (own []) = None /\
-  fst (run 0 (caller_of fn_string_string_concat_nul_left 2%N 4%N) (init_rstate [])) = ONormal /\
-  ~ balanced (ledger_of (caller_of fn_string_string_concat_nul_left 2%N 4%N)) /\
-  balanced (ledger_of (caller_of fn_string_string_concat 2%N 4%N)).
-Proof. exact nul_text_concat_refuted. Qed.
-Print Assumptions C05_nul_text_concat_refuted.
+(* documentation only: the function bodies as generated BEFORE c2054d3 / 39a39c6 (definitions *_old) are rejected by the
+   discipline and leave the same caller unbalanced *)
+Theorem C05_old_concat_functions_refuted :
+  own_check ctx0 (fn_scalar_scalar_concat_old 128%N) (own [1; 2]) = None /\
+  ~ balanced (ledger_of (caller_of (fn_scalar_scalar_concat_old 128%N) 5%N 5%N)) /\
+  own_check ctx0 (caller_of fn_string_string_concat_nul_left_old 2%N 4%N) (own []) = None /\
+  ~ balanced (ledger_of (caller_of fn_string_string_concat_nul_left_old 2%N 4%N)).
+Proof. exact old_concat_functions_refuted. Qed.
+Print Assumptions C05_old_concat_functions_refuted.
